@@ -11,6 +11,7 @@ import Y0.Driver.Cf
 import Y0.Driver.Ctf
 import Y0.Driver.Transport
 import Y0.Driver.Tian
+import Y0.Driver.Print
 
 open Y0 Y0.Driver
 
@@ -28,6 +29,7 @@ def dispatch (line : String) : String :=
       | "ctf" => handleCtf op args
       | "transport" => handleTransport op args
       | "tian" => handleTian op args
+      | "print" => handlePrint op args
       | _ => none
     match r with
     | some s => toString s
